@@ -86,6 +86,7 @@ type AttemptResult struct {
 	CancelBeforeErrorReturned bool
 	EarlyDelivery string
 	DumpServed    Pos
+	PoisonDelivered bool // the whole column-count-change unit (C15) reached the client
 }
 
 // Run is the mutable state of one simulated run.
@@ -950,6 +951,11 @@ func (r *Run) runAttempt(idx int, plan AttemptPlan) bool {
 		att.PacketsTotal = len(r.master.packets)
 		att.PacketsDeliv = r.master.packetsDelivered()
 		att.DumpServed = r.master.served
+		for k := 0; k < att.PacketsDeliv && k < len(r.master.packets); k++ {
+			if e := r.master.packets[k].ev; e != nil && e.Unit >= 0 && sc.Hist.Units[e.Unit].Poison && e == sc.Hist.Units[e.Unit].Tx.Commit {
+				att.PoisonDelivered = true
+			}
+		}
 	}
 	r.mu.Lock()
 	stillParkedH, stillParkedM := r.parkedH, r.parkedM
